@@ -2,8 +2,7 @@
    code for the functions the translator covers: every definition s_<f> of gen/SrcSparse.v (regenerated from the Rust
    source by driver/rust2coq.py on this run) equals its hand-written counterpart, for every arithmetic and every value of
    the six public fields (well-formed or not; no hypothesis).
-   Not translated (the translator raises TieBroken on it if asked): from_triplets (sort_by_key with a closure, iteration
-   over drain(..)). *)
+   from_triplets (round two): sort_by_key with the closure |t| t.1 is mapped by the call table to sort_by_col. *)
 From Coq Require Import List Arith ZArith Lia Bool.
 From OV Require Import Base.Panic Base.Arith Model.Vector Model.Matrix Model.Sparse Model.Iter gen.SrcPrelude gen.SrcSparse Proofs.SrcEqBase.
 Import ListNotations.
@@ -152,6 +151,32 @@ Proof.
   destruct (c =? col); cbn [bind]; [|reflexivity].
   destruct (upd (sp_val s) k x); reflexivity.
 Qed.
+(* ---- from_triplets (round two): `sort_by_key(|t| t.1)` is the stable insertion sort sort_by_col (call table), the loop over
+   `triplets.drain(..)` is for_in over the sorted list against the model's foldM drain_step; the source also returns the
+   drained (now empty) `&mut` vector *)
+Lemma for_in_foldM_sim {S1 S2 X} (R : S1 -> S2 -> Prop) (l : list X) (b1 : X -> S1 -> res S1) (b2 : S2 -> X -> res S2) (a1 : S1) (a2 : S2) :
+  R a1 a2 -> (forall x (p1 : S1) (p2 : S2), R p1 p2 -> res_rel R (b1 x p1) (b2 p2 x)) ->
+  res_rel R (for_in l b1 a1) (foldM b2 l a2).
+Proof.
+  revert a1 a2; induction l as [|x t IH]; intros a1 a2 H0 H; cbn [for_in foldM]; [exact H0|].
+  apply (res_rel_bind2 R R); [apply H; exact H0|]. intros a b Hab. apply IH; assumption.
+Qed.
+
+Lemma src_sp_from_triplets (r c : nat) (ts : list (triplet A)) :
+  s_sp_from_triplets r c ts = let* s := sp_from_triplets r c ts in Ok (@nil (triplet A), s).
+Proof.
+  unfold s_sp_from_triplets, sp_from_triplets. rewrite bind_assoc.
+  apply (res_rel_bind (fun (p : list nat * list nat * list (T A) * nat) (d : drained) =>
+                         p = (d_ri d, d_ci d, d_val d, d_nz d))).
+  - apply for_in_foldM_sim; [reflexivity|].
+    intros t [[[ri ci] vl] nz] d E. injection E as -> -> -> ->. unfold drain_step, trow, tcol, tval.
+    destruct (r <=? fst (fst t)); cbn [res_rel]; [reflexivity|].
+    destruct (c <=? snd (fst t)); cbn [res_rel]; reflexivity.
+  - intros [[[ri ci] vl] nz] d E. injection E as -> -> -> ->.
+    cbn [sp_rows sp_cols sp_nonzero sp_val sp_row_index sp_col_start]. rewrite bind_assoc.
+    apply bind_ext; intros cs. reflexivity.
+Qed.
+
 (* all of them at once: what a Props file pins as  model_is_source_<property>  *)
 Definition model_is_source_Sparse : Prop :=
   (forall (r c nz : nat), @s_sp_new_nonzero A r c nz = Ok (mkS r c nz (repeat zero nz) (repeat 0 nz) (repeat 0 (c + 1)))) /\
@@ -165,9 +190,10 @@ Definition model_is_source_Sparse : Prop :=
   (forall s, s_sp_to_dense s = sp_to_dense s) /\
   (forall s, s_sp_transpose s = sp_transpose s) /\
   (forall (s : sparse A) (row col : nat), s_sp_get s row col = sp_get s row col) /\
-  (forall (s : sparse A) (row col : nat) (x : T A), s_sp_insert s row col x = sp_insert s row col x).
+  (forall (s : sparse A) (row col : nat) (x : T A), s_sp_insert s row col x = sp_insert s row col x) /\
+  (forall (r c : nat) (ts : list (triplet A)), s_sp_from_triplets r c ts = let* s := sp_from_triplets r c ts in Ok (@nil (triplet A), s)).
 Lemma model_is_source_Sparse_lemma : model_is_source_Sparse.
-Proof. exact (conj src_sp_new_nonzero (conj src_sp_from_vecs (conj src_sp_col_start_from_index (conj src_sp_scale (conj src_sp_col_index (conj src_sp_mul (conj src_sp_tmul (conj src_sp_to_triplets (conj src_sp_to_dense (conj src_sp_transpose (conj src_sp_get src_sp_insert))))))))))). Qed.
+Proof. exact (conj src_sp_new_nonzero (conj src_sp_from_vecs (conj src_sp_col_start_from_index (conj src_sp_scale (conj src_sp_col_index (conj src_sp_mul (conj src_sp_tmul (conj src_sp_to_triplets (conj src_sp_to_dense (conj src_sp_transpose (conj src_sp_get (conj src_sp_insert src_sp_from_triplets)))))))))))). Qed.
 
 End SrcEqSparse.
 
